@@ -67,7 +67,14 @@ type unitCfg struct {
 	NoNativeCovers bool        `json:"noNativeCovers"`
 	ParallelEntries int        `json:"parallelEntries"`
 	Solver   string            `json:"solver"`
+	ExtraOverlays []extraOverlay `json:"extraOverlays"` // harness files injected into other packages (no shim)
+	CpusetShim bool            `json:"cpusetShim"`   // also inject the cpuset part of the shim (verifNondetCPUSet)
 	NativeRetries int          `json:"nativeRetries"` // findings that depend on Go's random map order: re-run natively up to N times
+}
+
+type extraOverlay struct {
+	Pkg string `json:"pkg"`
+	Dir string `json:"dir"`
 }
 
 type propCfg struct {
@@ -163,21 +170,39 @@ func overlayFor(u *unitCfg, pkgName string, entries []string) (map[string][]byte
 		return nil, "", err
 	}
 	ov[filepath.Join(pkgDir, "zz_verif_shim.go")] = []byte(strings.Replace(string(shim), "package PACKAGE", "package "+pkgName, 1))
-	hdir := filepath.Join(verifRoot, "harness", u.Dir)
-	files, err := filepath.Glob(filepath.Join(hdir, "*.go"))
-	if err != nil {
-		return nil, "", err
-	}
-	for _, f := range files {
-		data, err := os.ReadFile(f)
+	if u.CpusetShim {
+		cs, err := os.ReadFile(filepath.Join(verifRoot, "harness", "shim_cpuset.go.tmpl"))
 		if err != nil {
 			return nil, "", err
 		}
-		base := filepath.Base(f)
-		if strings.HasSuffix(base, "_test.go") {
-			continue
+		ov[filepath.Join(pkgDir, "zz_verif_shim_cpuset.go")] = []byte(strings.Replace(string(cs), "package PACKAGE", "package "+pkgName, 1))
+	}
+	inject := func(dir, into string) error {
+		files, err := filepath.Glob(filepath.Join(verifRoot, "harness", dir, "*.go"))
+		if err != nil {
+			return err
 		}
-		ov[filepath.Join(pkgDir, "zz_verif_"+base)] = data
+		for _, f := range files {
+			data, err := os.ReadFile(f)
+			if err != nil {
+				return err
+			}
+			base := filepath.Base(f)
+			if strings.HasSuffix(base, "_test.go") {
+				continue
+			}
+			ov[filepath.Join(into, "zz_verif_"+base)] = data
+		}
+		return nil
+	}
+	if err := inject(u.Dir, pkgDir); err != nil {
+		return nil, "", err
+	}
+	for _, eo := range u.ExtraOverlays {
+		d := filepath.Join(repoRoot, strings.TrimPrefix(strings.TrimPrefix(eo.Pkg, repoModule), "/"))
+		if err := inject(eo.Dir, d); err != nil {
+			return nil, "", err
+		}
 	}
 	return ov, pkgDir, nil
 }
